@@ -6,6 +6,8 @@ import (
 	"sync"
 	"sync/atomic"
 
+	"github.com/ulikunitz/xz/lzma"
+
 	"verif/core"
 	"verif/ref"
 )
@@ -23,6 +25,11 @@ type C07Case struct {
 	File    string  `json:",omitempty"`
 	Shape   []Seg   `json:",omitempty"`
 	Enc     []int   `json:",omitempty"`
+	// Src: kind of source (sourceOf); Drain: how the caller takes the data out (drainOf); Pre: number of
+	// bytes taken with one Read call before the rest is drained in that way
+	Src   int `json:",omitempty"`
+	Drain int `json:",omitempty"`
+	Pre   int `json:",omitempty"`
 }
 
 var modeNames = []string{"eos", "size", "size+eos"}
@@ -43,6 +50,29 @@ func c07Judge(r *core.Run, p C07Case, data, plain []byte, site, desc string) {
 		panic(fmt.Sprintf("C07 harness error: reference decoder rejects a valid stream (%s): %v", desc, a.Err))
 	}
 	out, err, proto, pan := lzmaDecode(data, p.DictCap)
+	if p.Src != 0 || p.Drain != 0 || p.Pre != 0 {
+		pan = core.Guard(func() {
+			var rd *lzma.Reader
+			rd, err = lzma.ReaderConfig{DictCap: p.DictCap}.NewReader(sourceOf(p.Src, data))
+			if err != nil {
+				return
+			}
+			var head []byte
+			if p.Pre > 0 {
+				head = make([]byte, p.Pre)
+				var n int
+				n, err = rd.Read(head)
+				head = head[:n]
+				if err != nil {
+					out = head
+					return
+				}
+			}
+			out, err, proto = drainOf(rd, p.Drain, 4096, 256<<20)
+			out = append(head, out...)
+		})
+		desc += fmt.Sprintf("; source: %s; %d bytes taken by one Read, the rest drained by %s", sourceKindNames[p.Src], p.Pre, drainModeNames[p.Drain])
+	}
 	cls := errClass(err)
 	switch {
 	case pan != nil:
@@ -178,7 +208,7 @@ func c07Read(r *core.Run, p C07Case) {
 func runC07(r *core.Run) {
 	corpus := bindRef(r)
 	th := thorough(r)
-	r.Rule = "writer side: the C06 space (a)-(c) restricted to lc+lp<=4, every stream judged by the reference .lzma decoder (properties byte, dictionary size >= max distance, size/marker mode truthful) and by liblzma; reader side: all legal operation sequences (depth d) x three termination modes x 4 property codes, a fixed op list x all 225 property codes x 3 modes x 2 DictCaps, a literal-rich 700-byte input x all 225 codes x 2 modes, fixed long operation walks (3000 operations) x all 225 codes x 3 modes, zero-length content in all modes x all codes, after state-macro prefixes, the liblzma corpus and fresh FORMAT_ALONE encodings. states = coder states; transitions = (state, op kind) and termination-mode steps; non-trivial = distinct (family, outcome, empty?)"
+	r.Rule = "writer side: the C06 space (a)-(c) restricted to lc+lp<=4, every stream judged by the reference .lzma decoder (properties byte, dictionary size >= max distance, size/marker mode truthful) and by liblzma; reader side: all legal operation sequences (depth d) x three termination modes x 4 property codes, a fixed op list x all 225 property codes x 3 modes x 2 DictCaps, a literal-rich 700-byte input x all 225 codes x 2 modes, fixed long operation walks (3000 operations) x all 225 codes x 3 modes, zero-length content in all modes x all codes, after state-macro prefixes, the liblzma corpus and fresh FORMAT_ALONE encodings; the fixed families again through sources with short reads / data together with io.EOF / bufio and drained by io.Copy, also after a first Read call of 1 / 7 / 5000 bytes. states = coder states; transitions = (state, op kind) and termination-mode steps; non-trivial = distinct (family, outcome, empty?)"
 	// writer side
 	wcases := lzmaWCases(r, "C07")
 	var kept []LZWCase
@@ -274,6 +304,24 @@ func runC07(r *core.Run) {
 		for _, sh := range shapes {
 			for _, e := range encs {
 				cases = append(cases, C07Case{Kind: "liblzma", Shape: sh, Enc: e, DictCap: 4096})
+			}
+		}
+	}
+	// the same streams through other sources and drained by io.Copy (which uses a WriteTo method of
+	// the reader when there is one), also after a first Read call
+	{
+		base := cases
+		for _, c := range base {
+			if c.Kind == "liblzma" {
+				continue
+			}
+			for _, v := range [][3]int{{5, 1, 0}, {4, 0, 0}, {0, 1, 1}, {2, 2, 7}, {0, 1, 5000}} {
+				if c.Kind == "ops" && c.DictCap != 4096 {
+					continue
+				}
+				q := c
+				q.Src, q.Drain, q.Pre = v[0], v[1], v[2]
+				cases = append(cases, q)
 			}
 		}
 	}
